@@ -174,6 +174,7 @@ func (s *Sim) fireDue() int {
 			select {
 			case best.ch <- gotime.Unix(0, s.now):
 				s.TicksSent++
+				s.TickLog = append(s.TickLog, s.now)
 			default:
 				s.TicksDrop++
 			}
